@@ -38,6 +38,8 @@ type C11Case struct {
 	Region    int    `json:"region,omitempty"`
 	Catalogue string `json:"catalogue"`
 	Locale    string `json:"locale"`
+	// Nest, when set, makes this a case of the nested tier (c11_nested.go)
+	Nest *C11Nest `json:"nest,omitempty"`
 }
 
 type c11Part struct {
@@ -184,6 +186,9 @@ func strHash(s string) uint32 { h := fnv.New32a(); h.Write([]byte(s)); return h.
 var c11rec *recorder
 
 func checkC11(c C11Case) Verdict {
+	if c.Nest != nil {
+		return checkC11Nested(c.Nest)
+	}
 	xgettext := os.Getenv("VERIF_XGETTEXT")
 	if xgettext == "" {
 		xgettext = filepath.Join(verifRoot(), ".build", "xgettext-soy")
@@ -481,6 +486,20 @@ func letEnv(lets []ref.Cmd) map[string]ref.Value {
 }
 
 func genC11(t *rapid.T) C11Case {
+	if rapid.IntRange(0, 5).Draw(t, "nested") == 3 {
+		part := rapid.IntRange(0, c11CallPart)
+		n := &C11Nest{Outer: rapid.SliceOfN(part, 1, 6).Draw(t, "outer")}
+		if rapid.IntRange(0, 3).Draw(t, "withCall") > 0 {
+			n.Outer = append(n.Outer, c11CallPart)
+			if rapid.Bool().Draw(t, "callFirst") {
+				n.Outer[0], n.Outer[len(n.Outer)-1] = n.Outer[len(n.Outer)-1], n.Outer[0]
+			}
+		}
+		for i, k := 0, rapid.IntRange(1, 3).Draw(t, "inners"); i < k; i++ {
+			n.Inners = append(n.Inners, rapid.SliceOfN(part, 1, 5).Draw(t, "inner"))
+		}
+		return C11Case{Catalogue: "identity", Locale: "en", Nest: n}
+	}
 	g := &gen.G{T: t}
 	c := C11Case{Catalogue: rapid.SampledFrom([]string{"identity", "reverse", "rotate", "partial"}).Draw(t, "catalogue"), Locale: rapid.SampledFrom([]string{"en", "ja", "cs", "fr"}).Draw(t, "locale")}
 	for i, n := 0, rapid.IntRange(1, 3).Draw(t, "ngroups"); i < n; i++ {
@@ -512,6 +531,8 @@ func genC11(t *rapid.T) C11Case {
 }
 
 func TestC11(t *testing.T) {
+	fileRoute = true
+	defer func() { fileRoute = false }()
 	c11rec = newRecorder("C11x")
 	defer c11rec.flush()
 	defer theNode.stop()
